@@ -72,6 +72,12 @@ var c10GzipBody = func() string {
 	return b.String()
 }()
 
+// panicBody is a request body whose Read panics.
+type panicBody struct{ val interface{} }
+
+func (b panicBody) Read([]byte) (int, error) { panic(b.val) }
+func (panicBody) Close() error               { return nil }
+
 type c10World struct {
 	c        *restful.Container
 	led      *ledger
@@ -128,9 +134,11 @@ func c10Build(cs c10Case) *c10World {
 		if pos == "h:pre" {
 			panic(w.val)
 		}
-		if pos == "h:read" {
+		if pos == "h:read" || pos == "h:reset" {
+			// gzip-encoded body: the panic is raised while a pooled reader is in use - inside the
+			// decoder (h:read) or by the body itself on its first Read (h:reset)
 			c10BombVal = w.val
-			req.ReadEntity(&c10Bomb{}) // gzip-encoded body: the panic is raised while a pooled reader is in use
+			req.ReadEntity(&c10Bomb{})
 		}
 		if pos == "h:entity" {
 			resp.WriteEntity(c13Ent{"entity"})
@@ -165,7 +173,7 @@ func c10Positions(shape [3]int, noRoute bool) []string {
 	for i := 0; i < shape[2]; i++ {
 		out = append(out, fmt.Sprintf("pre:r%d", i), fmt.Sprintf("post:r%d", i))
 	}
-	return append(out, "h:pre", "h:mid", "h:entity", "cond", "h:read")
+	return append(out, "h:pre", "h:mid", "h:entity", "cond", "h:read", "h:reset")
 }
 
 type c10Resp struct {
@@ -190,9 +198,13 @@ func (w *c10World) do(cs c10Case, pos string, segs ...string) c10Resp {
 	if cs.Enc != "" {
 		q.Hdr = append(q.Hdr, [2]string{"Accept-Encoding", cs.Enc})
 	}
-	if pos == "h:read" {
+	if pos == "h:read" || pos == "h:reset" {
 		q.Hdr = append(q.Hdr, [2]string{"Content-Type", "application/json"}, [2]string{"Content-Encoding", "gzip"})
 		q.Body = c10GzipBody
+	}
+	hreq := q.HTTP()
+	if pos == "h:reset" {
+		hreq.Body = panicBody{w.val}
 	}
 	rec := h.NewRec()
 	var r c10Resp
@@ -203,9 +215,9 @@ func (w *c10World) do(cs c10Case, pos string, segs ...string) c10Resp {
 			}
 		}()
 		if cs.Serve {
-			w.c.ServeHTTP(rec, q.HTTP())
+			w.c.ServeHTTP(rec, hreq)
 		} else {
-			w.c.Dispatch(rec, q.HTTP())
+			w.c.Dispatch(rec, hreq)
 		}
 	}()
 	r.Code = rec.Code
